@@ -19,7 +19,9 @@ EXPLANATION = (
     "constructed only in _materialize, with the raw name, behind the embedded-root collision guard, and __dask_graph__ is "
     "built from that materialized expression; (closedness) R04.4 every key reference emitted by a _layer/_task names a "
     "node derived from self's operands (the transitive dependency closure) on the same guard as dependencies() exposes "
-    "it; (no missing layer) R04.5 every expression class resolves a concrete _layer, a lowering, or a lower_once. "
+    "it; (no missing layer) R04.5 every expression class resolves a concrete _layer, a lowering, or a lower_once; R04.9 no _layer hands back "
+    "another node's layer; R04.10 the nested key grid of an expression is defined once (ArrayExpr.__dask_keys__ from _cached_keys) and not "
+    "overridden by any expression class except the reviewed single-key finalizer. "
     "Acyclicity and the key arithmetic inside individual _layer bodies are not decided."
 )
 ASSUMPTIONS = [
@@ -352,7 +354,73 @@ def r04_9(ctx):
     return rr
 
 
-RULES = [r04_1, r04_2, r04_3, r04_4, r04_5, r04_6, r04_7, r04_8, r04_9]
+KEY_GRID_OVERRIDES_REVIEWED = {
+    "FinalizeComputeArray": "not a block grid: the finalizer is one task under the single key self._name (its _layer defines exactly that key); dask's FinalizeCompute protocol asks for [name]",
+}
+
+_FLAT_KEYS_EXAMPLE = """
+class Flat(ArrayExpr):
+    def __dask_keys__(self):
+        return [(self._name,) + idx for idx in np.ndindex(self.numblocks)]
+"""
+
+
+def r04_10(ctx):
+    rr = RuleResult(
+        "R04.10", "WHO",
+        "the nested key grid (name, *block_index) over numblocks is defined once, in ArrayExpr.__dask_keys__ (from _cached_keys); no expression class "
+        "overrides it (the finalizer's single key is the one reviewed exception): consumers - finalize/concatenate3, ConcatenateArrayChunks, dask's own "
+        "collection protocol - assemble results by the NESTING of that list, so an override of another shape (a flat list) mis-assembles every multi-block result",
+        min_instances=2,
+    )
+    def override_of(class_node):
+        for b in class_node.body:
+            if isinstance(b, (ast.FunctionDef, ast.AsyncFunctionDef)) and b.name == "__dask_keys__":
+                return b
+            if isinstance(b, ast.Assign) and any(isinstance(t, ast.Name) and t.id == "__dask_keys__" for t in b.targets):
+                return b
+        return None
+
+    if override_of(ast.parse(_FLAT_KEYS_EXAMPLE).body[0]) is None:
+        from ..model import AnalysisError
+
+        raise AnalysisError("R04.10 matcher no longer recognises its own positive example")
+    rr.inst("positive-example", matched=1)
+    repo = ctx.repo
+    base = repo.mod("dask_array._expr").cls("ArrayExpr")
+    bf = base.methods.get("__dask_keys__")
+    need(bf is not None, "ArrayExpr.__dask_keys__")
+    uses_cached = any(isinstance(n, ast.Attribute) and n.attr == "_cached_keys" for n in body_walk(bf.node))
+    rr.inst(site(bf), from_cached_keys=uses_cached)
+    if not uses_cached:
+        ctx.finding(rr, site(bf), "ArrayExpr.__dask_keys__ no longer unwraps self._cached_keys (the nested grid over numblocks)", func=bf)
+    n = 0
+    for c in repo.expr_classes():
+        if not c.module.is_unit or c.fq == base.fq:
+            continue
+        n += 1
+        ov = override_of(c.node)
+        if ov is None:
+            continue
+        f = c.methods.get("__dask_keys__")
+        cst = f"{c.construct}::__dask_keys__"
+        rr.inst(cst, returns=[unparse(r.value)[:70] for r in ast.walk(ov) if isinstance(r, ast.Return) and r.value is not None])
+        if c.name in KEY_GRID_OVERRIDES_REVIEWED:
+            rr.exempt(cst, KEY_GRID_OVERRIDES_REVIEWED[c.name])
+            continue
+        ctx.finding(
+            rr, cst,
+            f"{c.name} overrides __dask_keys__: the list it returns replaces the nested (name, *block_index) grid that finalize/concatenate3 and dask's collection protocol "
+            f"assemble results by. VIndexArray returned a FLAT list: x.vindex[[0, 3, 1], [5, 0, 2]] on a 3-d x whose remaining axis has more than one chunk raised "
+            f"'could not broadcast input array from shape (2,2) into shape (2,)' in finalize (legacy dask.array computes it)",
+            func=f, file=c.module.path, line=ov.lineno,
+        )
+    rr.notes.append(f"{n} expression classes scanned")
+    need(n >= 100, "expression classes")
+    return rr
+
+
+RULES = [r04_1, r04_2, r04_3, r04_4, r04_5, r04_6, r04_7, r04_8, r04_9, r04_10]
 
 from .upstream import upstream_facts  # noqa: E402
 
